@@ -7,6 +7,18 @@ import (
 	"verif.local/mc/coop"
 )
 
+// Rotation emulates Go's unspecified map iteration order outside the scheduler: every sorted key list is rotated by
+// Rotation mod len. Harnesses vary it between requests to show that results do not depend on iteration order.
+var Rotation int
+
+func rotate(keys []string) []string {
+	if Rotation > 0 && len(keys) > 1 {
+		r := Rotation % len(keys)
+		keys = append(keys[r:], keys[:r]...)
+	}
+	return keys
+}
+
 // Keys returns the keys of m sorted, rotated by an environment choice (kind "rot").
 func Keys[V any](m map[string]V) []string {
 	keys := make([]string, 0, len(m))
@@ -19,7 +31,7 @@ func Keys[V any](m map[string]V) []string {
 			keys = append(keys[r:], keys[:r]...)
 		}
 	}
-	return keys
+	return rotate(keys)
 }
 
 // SortedKeys returns the keys of m sorted (no choice).
@@ -29,5 +41,5 @@ func SortedKeys[V any](m map[string]V) []string {
 		keys = append(keys, k)
 	}
 	sort.Strings(keys)
-	return keys
+	return rotate(keys)
 }
